@@ -53,8 +53,9 @@ def _assigned_names(fn):
 
 class Checker(object):
 
-  def __init__(self):
+  def __init__(self, known_globals=None):
     self.problems = []
+    self.known_globals = known_globals
 
   def reads(self, expr, state, locals_, outer_unbound, bound_extra=frozenset()):
     """Checks Name loads in expr against state."""
@@ -82,6 +83,8 @@ class Checker(object):
           if state is not DEAD and expr.id not in state:
             self.problems.append((expr.id, getattr(expr, 'lineno', 0)))
         elif expr.id in outer_unbound:
+          self.problems.append((expr.id, getattr(expr, 'lineno', 0)))
+        elif self.known_globals is not None and expr.id not in self.known_globals and expr.id not in self.enclosing_locals:
           self.problems.append((expr.id, getattr(expr, 'lineno', 0)))
       return
     for ch in ast.iter_child_nodes(expr):
@@ -205,7 +208,7 @@ class Checker(object):
         if fe is DEAD:
           return DEAD
         if out is not DEAD and state is not DEAD:
-          out = set(out) | (set(fe) - set(state))
+          out = (set(out) | (set(fe) - set(state))) - (set(state) - set(fe))
       return out
     if isinstance(s, ast.FunctionDef):
       for d in s.args.defaults + [k for k in s.args.kw_defaults if k is not None] + s.decorator_list:
@@ -236,8 +239,12 @@ class Checker(object):
         if not isinstance(e, ast.Name):
           self._target_reads(e, state, locals_, ou)
 
+  enclosing_locals = frozenset()
+
   def function(self, fn, outer_state, outer_locals, outer_unbound):
     locals_, decl = _assigned_names(fn)
+    saved_enclosing = self.enclosing_locals
+    self.enclosing_locals = self.enclosing_locals | frozenset(locals_) | frozenset(decl)
     # enclosing locals not definitely assigned at definition time are suspicious reads
     ou = set(outer_unbound)
     if outer_locals is not None:
@@ -247,14 +254,29 @@ class Checker(object):
     state = {a.arg for a in ast.walk(fn.args) if isinstance(a, ast.arg)}
     # nonlocal names are bound in the enclosing function (by construction)
     self.block(fn.body, state, locals_, ou)
+    self.enclosing_locals = saved_enclosing
 
 
-def unbound_reads(src, names=None):
+def unbound_reads(src, names=None, known_globals=None):
   """Returns [(name, line)] of reads that are not definitely assigned, in the
   module's top-level functions (optionally restricted to `names`) and the
   functions nested in them (also inside factories)."""
   tree = ast.parse(src)
-  ck = Checker()
+  if known_globals is not None:
+    import builtins
+    known_globals = set(known_globals) | set(dir(builtins))
+    for node in tree.body:
+      if isinstance(node, (ast.FunctionDef, ast.ClassDef)):
+        known_globals.add(node.name)
+      elif isinstance(node, ast.Assign):
+        for t in node.targets:
+          for n in ast.walk(t):
+            if isinstance(n, ast.Name):
+              known_globals.add(n.id)
+      elif isinstance(node, (ast.Import, ast.ImportFrom)):
+        for a in node.names:
+          known_globals.add((a.asname or a.name).split('.')[0])
+  ck = Checker(known_globals)
   for node in tree.body:
     if isinstance(node, ast.FunctionDef) and (names is None or node.name in names):
       ck.function(node, set(), None, set())
